@@ -86,47 +86,56 @@ func Run(c *vk.Ctx) {
 		c.Finish()
 		return
 	}
-	depth := 4
-	if c.Thorough() {
-		depth = 5
+	// quick: depth 4 over the 24-operation alphabet; thorough: depth 5 over the same alphabet plus
+	// depth 4 over the full 34-operation alphabet (two symmetric builders)
+	type pass struct {
+		alpha []hwd.Op
+		depth int
 	}
-	alpha := alphabet(c.Thorough())
+	passes := []pass{{alphabet(false), 4}}
+	if c.Thorough() {
+		passes = []pass{{alphabet(false), 5}, {alphabet(true), 4}}
+	}
+	depth, alpha := passes[0].depth, passes[0].alpha
 	var idx int64
-	hwd.Enumerate(alpha, depth, func(hist []hwd.Op) bool {
-		if c.Full() || c.Expired() {
-			return false
-		}
-		mine := c.Mine(idx)
-		idx++
-		if !mine {
-			return true
-		}
-		f, j, u := hwd.Run(hist, check)
-		c.Res.Evaluations += int64(j)
-		c.Res.Unjudged += int64(u)
-		c.Res.Traces++
-		c.Res.States++
-		c.Res.Transitions += int64(len(hist))
-		mocked := false
-		for _, o := range hist {
-			if o.K <= hwd.KWhenReturn {
-				mocked = true
+	for _, ps := range passes {
+		hwd.Enumerate(ps.alpha, ps.depth, func(hist []hwd.Op) bool {
+			if c.Full() || c.Expired() {
+				return false
 			}
-		}
-		if mocked {
-			c.Res.Nontrivial++
-		}
-		if idx%997 == 1 {
-			c.Sample(hwd.Case{Ops: hist, Text: hwd.OpsString(hist)})
-		}
-		if f != "" {
-			min, g := hwd.Minimize1(hist, check, hwd.Class)
-			c.Violate(fmt.Sprintf("hist=[%s] class=%s", hwd.OpsString(min), hwd.Class(g)), g, hwd.Case{Ops: min, Text: hwd.OpsString(min)})
-		}
-		return true
-	})
+			mine := c.Mine(idx)
+			idx++
+			if !mine {
+				return true
+			}
+			f, j, u := hwd.Run(hist, check)
+			c.Res.Evaluations += int64(j)
+			c.Res.Unjudged += int64(u)
+			c.Res.Traces++
+			c.Res.States++
+			c.Res.Transitions += int64(len(hist))
+			mocked := false
+			for _, o := range hist {
+				if o.K <= hwd.KWhenReturn {
+					mocked = true
+				}
+			}
+			if mocked {
+				c.Res.Nontrivial++
+			}
+			if idx%997 == 1 {
+				c.Sample(hwd.Case{Ops: hist, Text: hwd.OpsString(hist)})
+			}
+			if f != "" {
+				min, g := hwd.Minimize1(hist, check, hwd.Class)
+				c.Violate(fmt.Sprintf("hist=[%s] class=%s", hwd.OpsString(min), hwd.Class(g)), g, hwd.Case{Ops: min, Text: hwd.OpsString(min)})
+			}
+			return true
+		})
+	}
 	c.Res.Extra["depth"] = depth
 	c.Res.Extra["alphabet"] = len(alpha)
+	c.Res.Extra["passes"] = fmt.Sprint(len(passes))
 	c.Res.Extra["jump_len"] = jumpLen
 	c.Finish()
 }
